@@ -4,6 +4,7 @@ package main
 // four cmd mains, go/ssa with instantiated generics, VTA call graph.
 
 import (
+	"strconv"
 	"crypto/sha1"
 	"fmt"
 	"go/ast"
@@ -315,6 +316,7 @@ func loadProg(needSSA bool) (*Prog, error) {
 	}
 	sort.Slice(p.ModFuncs, func(i, j int) bool { return shortName(p.ModFuncs[i]) < shortName(p.ModFuncs[j]) })
 	matchRenamedFunctions(p)
+	matchRenamedFields(p)
 	return p, nil
 }
 
@@ -533,4 +535,124 @@ func objFuncNameRaw(obj *types.Func) string {
 		return "(" + pkg + "." + name + ")." + obj.Name()
 	}
 	return pkg + "." + obj.Name()
+}
+
+// fieldAlias: struct fields of /repo that were renamed since the audit, with the name they are
+// audited under.  Filled by matchRenamedFields from tables/struct_fields.tsv.
+var fieldAlias = map[string]string{} // by source position of the declaration (file:line:col): the same field in every variant of its package
+
+var fieldAliasFset *token.FileSet
+
+func fldName(v *types.Var) string {
+	if len(fieldAlias) > 0 && v.IsField() && fieldAliasFset != nil {
+		if a, ok := fieldAlias[fieldAliasFset.Position(v.Pos()).String()]; ok {
+			return a
+		}
+	}
+	return v.Name()
+}
+
+// structFieldRows: "pkg.Type<TAB>index<TAB>name<TAB>type" for every field of every named struct
+// type of the module's production packages.
+func structFieldRows(p *Prog) []string {
+	var out []string
+	for _, pk := range p.prodPkgs() {
+		if pk.Types == nil || !isProdPkgPath(pk.PkgPath) {
+			continue
+		}
+		sc := pk.Types.Scope()
+		for _, n := range sc.Names() {
+			tn, ok := sc.Lookup(n).(*types.TypeName)
+			if !ok {
+				continue
+			}
+			st, ok := tn.Type().Underlying().(*types.Struct)
+			if !ok {
+				continue
+			}
+			for i := 0; i < st.NumFields(); i++ {
+				out = append(out, fmt.Sprintf("%s.%s\t%d\t%s\t%s", shortPath(pk.PkgPath), n, i, st.Field(i).Name(), typeShort(st.Field(i).Type())))
+			}
+		}
+	}
+	sort.Strings(out)
+	// a package with in-package tests is loaded in two variants: one row per field
+	var uniq []string
+	for i, l := range out {
+		if i == 0 || l != out[i-1] {
+			uniq = append(uniq, l)
+		}
+	}
+	return uniq
+}
+
+// matchRenamedFields: a struct type whose recorded fields and current fields agree in number and,
+// position by position, in type, but differ in some names, had those fields renamed: the checks
+// go on using the audited names.  Any other change of the struct is not matched.
+func matchRenamedFields(p *Prog) {
+	fieldAlias = map[string]string{}
+	fieldAliasFset = p.Fset
+	data, err := os.ReadFile(filepath.Join(verifDir(), "tables", "struct_fields.tsv"))
+	if err != nil {
+		return
+	}
+	type rec struct{ name, typ string }
+	want := map[string][]rec{}
+	for _, line := range strings.Split(string(data), "\n") {
+		f := strings.Split(line, "\t")
+		if len(f) != 4 || strings.HasPrefix(line, "#") {
+			continue
+		}
+		idx, err := strconv.Atoi(f[1])
+		if err != nil || idx < 0 || idx > 1000 {
+			continue
+		}
+		for len(want[f[0]]) <= idx {
+			want[f[0]] = append(want[f[0]], rec{})
+		}
+		want[f[0]][idx] = rec{f[2], f[3]}
+	}
+	for _, pk := range p.prodPkgs() {
+		if pk.Types == nil || !isProdPkgPath(pk.PkgPath) {
+			continue
+		}
+		sc := pk.Types.Scope()
+		for _, n := range sc.Names() {
+			tn, ok := sc.Lookup(n).(*types.TypeName)
+			if !ok {
+				continue
+			}
+			st, ok := tn.Type().Underlying().(*types.Struct)
+			if !ok {
+				continue
+			}
+			w := want[shortPath(pk.PkgPath)+"."+n]
+			if len(w) != st.NumFields() {
+				continue
+			}
+			same := true
+			var renamed []int
+			for i := 0; i < st.NumFields(); i++ {
+				if typeShort(st.Field(i).Type()) != w[i].typ {
+					same = false
+				}
+				if st.Field(i).Name() != w[i].name {
+					renamed = append(renamed, i)
+				}
+			}
+			if !same || len(renamed) == 0 {
+				continue
+			}
+			// the old names must not be in use for other fields of the struct now
+			cur := map[string]bool{}
+			for i := 0; i < st.NumFields(); i++ {
+				cur[st.Field(i).Name()] = true
+			}
+			for _, i := range renamed {
+				if !cur[w[i].name] {
+					fieldAlias[p.Fset.Position(st.Field(i).Pos()).String()] = w[i].name
+				}
+			}
+		}
+	}
 }
